@@ -26,6 +26,9 @@ func run(t *testing.T, part string, n int, pick []int) {
 
 func TestVerif_Battery(t *testing.T)    { run(t, "battery", vkit.N(2000, 100000), nil) }
 func TestVerif_BatteryLPM(t *testing.T) { run(t, "battery-lpm", vkit.N(800, 40000), []int{1, 3}) }
+func TestVerif_BatteryLongKeys(t *testing.T) {
+	run(t, "battery-longkeys", vkit.N(400, 20000), []int{5})
+}
 
 // Wide fan-out: ids under one prefix grow past and shrink below every radix node size (4/5, 16/17, 48/49) with the prefix key itself present.
 func TestVerif_BatteryWide(t *testing.T) {
